@@ -62,6 +62,10 @@ fn by_name(mut s: Sheet) -> Sheet {
 }
 
 fn address_for_threshold(th: u64) -> Address {
+  address_for_threshold_on(th, Network::Bitcoin)
+}
+
+fn address_for_threshold_on(th: u64, network: Network) -> Address {
   let script = match th {
     294 => ScriptBuf::new_p2wpkh(&bitcoin::WPubkeyHash::from_byte_array([3; 20])),
     546 => ScriptBuf::new_p2pkh(&bitcoin::PubkeyHash::from_byte_array([4; 20])),
@@ -74,7 +78,7 @@ fn address_for_threshold(th: u64) -> Address {
     )),
   };
   assert_eq!(script.minimal_non_dust().to_sat(), th, "dust threshold of the address type");
-  Address::from_script(&script, Network::Bitcoin).unwrap()
+  Address::from_script(&script, network).unwrap()
 }
 
 struct SplitOut {
@@ -83,6 +87,8 @@ struct SplitOut {
   runes: Sheet,
 }
 struct SplitCase {
+  /// 0 = pure function through the hook; n > 0 = end to end with n etched runes
+  e2e_runes: usize,
   oversize: bool,
   limit_on: bool,
   postage: u64,
@@ -92,7 +98,7 @@ struct SplitCase {
 }
 
 fn encode_split(c: &SplitCase) -> Line {
-  let mut l = L::new().p(1u8).p(0u8).p(c.oversize).p(c.postage).p(c.change_dust).p(c.inv.len());
+  let mut l = L::new().p(1u8).p(c.e2e_runes > 0).p(c.oversize).p(c.postage).p(c.change_dust).p(c.inv.len());
   for (ins, s) in &c.inv {
     l.push(*ins);
     push_sheet(&mut l, s);
@@ -105,6 +111,7 @@ fn encode_split(c: &SplitCase) -> Line {
     push_sheet(&mut l, &o.runes);
   }
   l.push(c.limit_on);
+  l.push(c.e2e_runes);
   l.done()
 }
 
@@ -125,7 +132,8 @@ fn decode_split(c: &mut Cur) -> SplitCase {
     })
     .collect();
   let limit_on = if c.at_end() { false } else { c.bool() };
-  SplitCase { oversize, limit_on, postage, change_dust, inv, outs }
+  let e2e_runes = if c.at_end() { 0 } else { c.usize() };
+  SplitCase { e2e_runes, oversize, limit_on, postage, change_dust, inv, outs }
 }
 
 fn gen_amount(rng: &mut Rng, big: bool) -> u128 {
@@ -197,7 +205,223 @@ fn gen_split(rng: &mut Rng) -> SplitCase {
     1 => change_dust,
     _ => 10_000,
   };
-  SplitCase { oversize: limit_on && many, limit_on, postage, change_dust, inv, outs }
+  SplitCase { e2e_runes: 0, oversize: limit_on && many, limit_on, postage, change_dust, inv, outs }
+}
+
+/// end-to-end split: runes etched on regtest (names in the opposite order of the ids)
+fn gen_split_e2e(rng: &mut Rng) -> SplitCase {
+  let n_runes = rng.range(1, 3) as usize;
+  // BTreeMap<Rune, _> order = decreasing rune index
+  let by_name_e2e = |m: &BTreeMap<usize, u128>| -> Sheet { m.iter().rev().map(|(k, a)| (send_id(n_runes, *k), *a)).collect() };
+  let lo = if rng.chance(1, 12) { 0 } else { 1 };
+  let n_outs = rng.range(lo, 3) as usize;
+  let mut outs = Vec::new();
+  let mut need: BTreeMap<usize, u128> = BTreeMap::new();
+  for _ in 0..n_outs {
+    let mut runes: BTreeMap<usize, u128> = BTreeMap::new();
+    for _ in 0..rng.range(1, 2) {
+      let k = rng.below(n_runes as u64) as usize;
+      runes.insert(k, if rng.chance(1, 20) { 0 } else { 1 + u128::from(rng.below(50)) });
+    }
+    for (k, a) in &runes {
+      *need.entry(*k).or_default() += *a;
+    }
+    let threshold = *rng.pick(&[294u64, 330, 546]);
+    let value = match rng.below(16) {
+      0 | 1 => Some(threshold),
+      2 => Some(threshold - 1),
+      3 | 4 => Some(10_000),
+      _ => None,
+    };
+    outs.push(SplitOut { value, threshold, runes: by_name_e2e(&runes) });
+  }
+  let style = *rng.pick(&[0u64, 1, 2, 2, 0, 2, 3]);
+  let n_inv = rng.range(1, 4) as usize;
+  let mut inv = Vec::new();
+  for i in 0..n_inv {
+    let mut s: BTreeMap<usize, u128> = BTreeMap::new();
+    for k in 0..n_runes {
+      if rng.chance(5, 6) {
+        let l = need.get(&k).copied().unwrap_or(0);
+        let a = match style {
+          0 => l,
+          1 => l / 2 + u128::from(i == n_inv - 1) * (l - l / 2),
+          2 => l + 1 + u128::from(rng.below(20)),
+          _ => l / 3,
+        };
+        if a > 0 {
+          s.insert(k, a);
+        }
+      }
+    }
+    inv.push((rng.chance(1, 10), by_name_e2e(&s)));
+  }
+  let postage = match rng.below(16) {
+    0 => 329,
+    1 | 2 => 330,
+    _ => 10_000,
+  };
+  SplitCase { e2e_runes: n_runes, oversize: false, limit_on: false, postage, change_dust: 330, inv, outs }
+}
+
+fn run_split_e2e(c: &SplitCase) -> Outcome {
+  let n_runes = c.e2e_runes;
+  let idx = |id: u128| (0..n_runes).find(|k| send_id(n_runes, *k) == id).expect("rune id of the case");
+  let spec = WorldSpec {
+    regtest: true,
+    rune_names: (0..n_runes).map(|k| (n_runes - k) as u128).collect(),
+    mintable: None,
+    outputs: c
+      .inv
+      .iter()
+      .map(|(ins, s)| OutSpec {
+        value: 10_000,
+        inscriptions: usize::from(*ins),
+        runes: s.iter().map(|(id, a)| (idx(*id), *a)).collect(),
+        locked: *ins && !s.is_empty(),
+      })
+      .collect(),
+    foreign: 1,
+    foreign_inscribed: false,
+    cardinals: 1,
+    no_rune_index: false,
+  };
+  let w = World::new(spec);
+  for k in 0..n_runes {
+    assert_eq!(wire_id(w.rune_ids[k]), send_id(n_runes, k), "predicted rune id");
+  }
+  let burned_before: Vec<u128> = w.runes.iter().map(|r| w.server.rune_entry(*r).unwrap().1).collect();
+  let mut yaml = String::from("outputs:\n");
+  if c.outs.is_empty() {
+    yaml = "outputs: []\n".into();
+  }
+  for o in &c.outs {
+    yaml.push_str(&format!("- address: {}\n", address_for_threshold_on(o.threshold, Network::Regtest)));
+    if let Some(v) = o.value {
+      yaml.push_str(&format!("  value: {v} sat\n"));
+    }
+    yaml.push_str("  runes:\n");
+    for (id, a) in &o.runes {
+      yaml.push_str(&format!("    {}: {a}\n", w.runes[idx(*id)]));
+    }
+  }
+  let path = w.file("splits.yaml", &yaml);
+  let postage = format!("{}sat", c.postage);
+  let r = w.cli(&["split", "--fee-rate", "1", "--no-limit", "--postage", &postage, "--splits", &path]);
+  match r {
+    Err(msg) => {
+      let code: u8 = if msg.contains("wallet contains") {
+        1
+      } else if msg.contains("has zero value for rune") {
+        2
+      } else if msg.contains("at least one output") {
+        3
+      } else if msg.contains("postage value") {
+        4
+      } else if msg.contains("runestone size") {
+        5
+      } else if msg.contains("below dust threshold") {
+        6
+      } else {
+        0
+      };
+      let oracle = if code == 0 { Err(format!("[harness] unclassified error: {msg}")) } else { Ok(()) };
+      Outcome { obs: L::new().p(1u8).p(code).done(), oracle, cat: format!("split-e2e/err{code}") }
+    }
+    Ok(_) => {
+      let pool = w.mempool();
+      if pool.len() != 1 {
+        return Outcome {
+          obs: L::new().p(98u8).done(),
+          oracle: Err(format!("command succeeded but {} transactions were broadcast", pool.len())),
+          cat: "split-e2e/nobroadcast".into(),
+        };
+      }
+      let tx = pool[0].clone();
+      let txid = tx.compute_txid();
+      w.mine_and_index();
+      let inputs: Vec<usize> =
+        tx.input.iter().filter_map(|i| w.outpoints.iter().position(|o| *o == i.previous_output)).collect();
+      let mut l = L::new().p(0u8).p(inputs.len());
+      for j in &inputs {
+        l.push(*j);
+      }
+      l.push(tx.output.len());
+      let mut outs: Vec<BTreeMap<u128, u128>> = Vec::new();
+      for o in 0..tx.output.len() {
+        let m: BTreeMap<u128, u128> = w
+          .server
+          .rune_balances(OutPoint { txid, vout: o as u32 })
+          .unwrap_or_default()
+          .into_iter()
+          .map(|(id, a)| (wire_id(id), a))
+          .collect();
+        show_sheet(&mut l, &m);
+        outs.push(m);
+      }
+      let mut burned: BTreeMap<u128, u128> = BTreeMap::new();
+      for (k, r) in w.runes.iter().enumerate() {
+        burned.insert(send_id(n_runes, k), w.server.rune_entry(*r).unwrap().1 - burned_before[k]);
+      }
+      show_sheet(&mut l, &burned);
+      // S, on the index's balances
+      let mut oracle = Ok(());
+      if c.outs.iter().any(|o| o.runes.iter().any(|(_, a)| *a == 0)) {
+        oracle = Err("a split output asks for zero units of a rune and the split was not rejected".to_string());
+      }
+      let mut spent: BTreeMap<u128, u128> = BTreeMap::new();
+      for j in &inputs {
+        if c.inv[*j].0 {
+          oracle = Err(format!("inscribed output {j} spent"));
+        }
+        for (id, a) in &c.inv[*j].1 {
+          *spent.entry(*id).or_default() += *a;
+        }
+      }
+      // outputs: [runestone, (change)?, split outputs.., bitcoin change]
+      let n = c.outs.len();
+      let base = tx.output.len() - n - 1;
+      let mut requested: BTreeMap<u128, u128> = BTreeMap::new();
+      for (i, o) in c.outs.iter().enumerate() {
+        let want: BTreeMap<u128, u128> = o.runes.iter().cloned().collect();
+        if outs[base + i] != want {
+          oracle = Err(format!("split output {i} receives {:?}, requested {want:?}", outs[base + i]));
+        }
+        if tx.output[base + i].script_pubkey != address_for_threshold_on(o.threshold, Network::Regtest).script_pubkey() {
+          oracle = Err(format!("split output {i} pays to the wrong script"));
+        }
+        for (id, a) in &want {
+          *requested.entry(*id).or_default() += *a;
+        }
+      }
+      if burned.values().any(|a| *a > 0) {
+        oracle = Err(format!("split burns {burned:?}"));
+      }
+      let mut back: BTreeMap<u128, u128> = BTreeMap::new();
+      for (o, m) in outs.iter().enumerate() {
+        if o >= base && o < base + n {
+          continue;
+        }
+        let ours = Address::from_script(&tx.output[o].script_pubkey, Network::Regtest)
+          .map(|a| w.core.state().is_wallet_address(&a))
+          .unwrap_or(false);
+        for (id, a) in m {
+          if ours {
+            *back.entry(*id).or_default() += *a;
+          } else if *a > 0 {
+            oracle = Err(format!("output {o} (not a wallet output) receives {a} of rune {id}"));
+          }
+        }
+      }
+      for (id, have) in &spent {
+        let rest = have - requested.get(id).copied().unwrap_or(0);
+        if back.get(id).copied().unwrap_or(0) != rest {
+          oracle = Err(format!("rune {id}: {rest} left over but the wallet gets back {:?}", back.get(id)));
+        }
+      }
+      Outcome { obs: l.done(), oracle, cat: format!("split-e2e/ok/in{}/base{base}", inputs.len().min(3)) }
+    }
+  }
 }
 
 /// the harness' own reading of the rune rules for one transaction
@@ -612,6 +836,9 @@ pub fn gen(rng: &mut Rng, tier: &str) -> Vec<Line> {
   for _ in 0..n_send {
     v.push(encode_send(&gen_send(rng)));
   }
+  for _ in 0..n_send / 2 {
+    v.push(encode_split(&gen_split_e2e(rng)));
+  }
   for _ in 0..n_split {
     v.push(encode_split(&gen_split(rng)));
   }
@@ -627,7 +854,11 @@ pub fn run(line: &Line) -> Outcome {
     }
     _ => {
       let case = decode_split(&mut c);
-      let mut o = guarded("split", || run_split(&case));
+      let mut o = if case.e2e_runes > 0 {
+        guarded("split-e2e", || run_split_e2e(&case))
+      } else {
+        guarded("split", || run_split(&case))
+      };
       // `checked_add(amount).unwrap()` on the per-rune requirement: a split file that asks for
       // 2^128 or more units of one rune in total aborts before any transaction exists. No wallet
       // can hold that much, nothing is moved; reported as a category, not as a violation.
